@@ -12,8 +12,8 @@ import (
 
 func init() {
 	eng.Register(&eng.Check{
-		ID: "C06",
-		Rule: "E1 bounded product for quantifiers: collection shapes ([]interface{}, [N]interface{}, []map, []struct, []*struct, []int, []string, map[string]interface{}, map[string]struct, nested lists/maps) of length 0..4 (thorough 0..5) with EVERY assignment of {T,F,E} to the elements' body outcome, plus lengths 8, 9, 17, 33 with the decisive / erroring element at first, middle, last position x any/all x 4 binding modes x 4 name choices (fresh, shadowing a top-level field, same name twice) x body templates (binding as root, as prefix, via JSON pointer, index/key, unused, mixed, negated) x nesting up to 3, plus non-iterables; oracles: (a) reference interpreter, (b) unrolling on the implementation: for value aliases over lists `any S as x {P(x)}` == `P(S.0) or ... or P(S.n-1)` (all: conjunction) by syntactic substitution. Distinct by construction; non-trivial = the collection selector resolved to an iterable with >=1 element (the fold ran).",
+		ID:          "C06",
+		Rule:        "E1 bounded product for quantifiers: collection shapes ([]interface{}, [N]interface{}, []map, []struct, []*struct, []int, []string, map[string]interface{}, map[string]struct, nested lists/maps) of length 0..4 (thorough 0..5) with EVERY assignment of {T,F,E} to the elements' body outcome, plus lengths 8, 9, 17, 33 with the decisive / erroring element at first, middle, last position x any/all x 4 binding modes x 4 name choices (fresh, shadowing a top-level field, same name twice) x body templates (binding as root, as prefix, via JSON pointer, index/key, unused, mixed, negated) x nesting up to 3, plus non-iterables; oracles: (a) reference interpreter, (b) unrolling on the implementation: for value aliases over lists `any S as x {P(x)}` == `P(S.0) or ... or P(S.n-1)` (all: conjunction) by syntactic substitution. Distinct by construction; non-trivial = the collection selector resolved to an iterable with >=1 element (the fold ran).",
 		Assumptions: []string{"reference interpreter as in C01 (map iteration order unspecified when an element errors and another is decisive: both outcomes allowed, consistency is C14's business)"},
 		Run:         runC06,
 	})
@@ -43,7 +43,9 @@ func c06Shapes(thorough bool) []c06shape {
 	mp := func(kv ...*Node) *Node { return NMap(TStr, TAny, kv...) }
 	root := func(v string) *Match { return &Match{Sel: []string{v}, Op: OpEq, Lit: "1"} }
 	fld := func(v string) *Match { return &Match{Sel: []string{v, "f"}, Op: OpEq, Lit: "1"} }
-	stT := func(x *Node) *Node { return NStruct(F{Name: "F", Tag: `bexpr:"f"`, V: NAny(x)}, F{Name: "g", Unexp: true, V: one}) }
+	stT := func(x *Node) *Node {
+		return NStruct(F{Name: "F", Tag: `bexpr:"f"`, V: NAny(x)}, F{Name: "g", Unexp: true, V: one})
+	}
 	stType := stT(one).T
 	elems := func(pat []int, t, f, e *Node) []*Node {
 		var out []*Node
